@@ -334,6 +334,21 @@ Definition run_model (op : N) (ints : list N) (bs : list bytes) : list N :=
   | 43 => damp_run damp_init (times_of ints 1000000000000)
   | 44 => [tok_bool (new_server_ok (mkAddr (akind_of (nthN ints 0)) (nthN ints 1)))]
   | 60 => conn_scenario ints bs
+  | 61 => (* the reader over a chunked stream: ints [eof; chunk sizes...] *)
+      let stream := nthB bs 0 in
+      let fix cut (sizes : list N) (s : bytes) : list bytes :=
+          match sizes with
+          | [] => [s]
+          | n :: r => take n s :: cut r (drop n s)
+          end in
+      let chunks := cut (skipn 1 ints) stream in
+      let (st, evs) := feed_all rinit chunks in
+      let evs := evs ++ (if nthN ints 0 =? 0 then [] else feed_eof st) in
+      flat_map (fun e => match e with
+                         | RMsg m => 1 :: tok_msg m
+                         | RErrNotif n => 2 :: tok_notif n
+                         | RErrIO => [3]
+                         end) evs
   | _ => [999]
   end.
 
@@ -496,6 +511,14 @@ Definition oracle (op : N) (ints : list N) (bs : list bytes) (out : list N) : li
                                  (script_list (S (length ints)) ints)) out
   | 128 => oracle_unfe (oerr_of ints) out
   | 129 => oracle_errors (nthB bs 0) (script_of ints) out
+  | 161 => (* C08/C03: whatever the segmentation, the reader hands over exactly what the
+              length fields dictate for the whole stream (reference: the unchunked parse) *)
+      let evs := read_stream (nthB bs 0) (negb (nthN ints 0 =? 0)) in
+      if beqb out (flat_map (fun e => match e with
+                                      | RMsg m => 1 :: tok_msg m
+                                      | RErrNotif n => 2 :: tok_notif n
+                                      | RErrIO => [3]
+                                      end) evs) then ok else bad 1
   | 141 => (* C13: admitted iff source configured and (no local address or destination = it) *)
       match ints with
       | n :: r =>
